@@ -37,6 +37,11 @@
 #include "value.hh"
 #include "selector.hh"
 
+#ifdef DWGREP_VERIF
+# include <cstdio>
+# include <cstdlib>
+#endif
+
 enum var_id: unsigned {};
 
 // Stack is a container type that's used for maintaining stacks of dwgrep
@@ -52,6 +57,28 @@ public:
   stack ()
     : m_profile {0}
   {}
+
+#ifdef DWGREP_VERIF
+  // Verification hook: the cached profile must always equal the type
+  // codes of the top selector::W values.
+  void
+  verif_check_profile () const
+  {
+    selector::sel_t expect = 0;
+    for (unsigned d = 0; d < selector::W && d < m_values.size (); ++d)
+      {
+	auto code = (*(m_values.rbegin () + d))->get_type ().code ();
+	expect |= ((selector::sel_t) code) << (d * 8);
+      }
+    if (expect != m_profile)
+      {
+	std::fprintf (stderr, "DWGREP_VERIF stack: profile %#x, but the top of"
+		      " the stack has %#x (depth %zu)\n",
+		      (unsigned) m_profile, (unsigned) expect, m_values.size ());
+	std::abort ();
+      }
+  }
+#endif
 
   stack (stack const &other);
   stack (stack &&other) = default;
@@ -74,6 +101,9 @@ public:
     m_profile <<= 8;
     m_profile |= vp->get_type ().code ();
     m_values.push_back (std::move (vp));
+#ifdef DWGREP_VERIF
+    verif_check_profile ();
+#endif
   }
 
   void
@@ -95,6 +125,9 @@ public:
 	auto code = get (selector::W - 1).get_type ().code ();
 	m_profile |= ((selector::sel_t) code) << (8 * (selector::W - 1));
       }
+#ifdef DWGREP_VERIF
+    verif_check_profile ();
+#endif
     return ret;
   }
 
@@ -109,6 +142,9 @@ public:
 	auto code = get (d).get_type ().code ();
 	m_profile |= code << (d * 8);
       }
+#ifdef DWGREP_VERIF
+    verif_check_profile ();
+#endif
   }
 
   template <class T>
